@@ -27,6 +27,8 @@ SOCKET = 'pymodbus.framer.socket_framer.ModbusSocketFramer'
 
 class W:
     def __init__(self):
+        self.probe = None     # optional: evaluated at the moment a deferred fires (what a callback that re-enters the protocol would see)
+        self.seen = []        # probe results, one per firing
         self.fired = []       # (deferred name, 'callback' | 'errback', argument)
         self.written = []
         self.made = []
@@ -34,12 +36,19 @@ class W:
 
 def deferred(E, w, name):
     if E.mode == 'symbolic':
-        return E.stub('deferred:' + name, {'callback': lambda r: w.fired.append((name, 'callback', r)),
-                                           'errback': lambda f: w.fired.append((name, 'errback', f))}, attrs={'name': name})
+        def fire(kind, arg):
+            if w.probe is not None:
+                w.seen.append(w.probe())
+            w.fired.append((name, kind, arg))
+        return E.stub('deferred:' + name, {'callback': lambda r: fire('callback', r), 'errback': lambda f: fire('errback', f)}, attrs={'name': name})
     from twisted.internet import defer
     d = defer.Deferred()
     d.name = name
-    d.addCallbacks(lambda r: w.fired.append((name, 'callback', r)) and None, lambda f: w.fired.append((name, 'errback', f)) and None)
+    def fire(kind, arg):
+        if w.probe is not None:
+            w.seen.append(w.probe())
+        w.fired.append((name, kind, arg))
+    d.addCallbacks(lambda r: fire('callback', r), lambda f: fire('errback', f))
     return d
 
 
@@ -131,7 +140,12 @@ def lost_lemma(n):
         w = W()
         p, tm, tids, ds = protocol(E, w, n)
         E.I.cfg.ext.update(ext_models(E, w)) if E.mode == 'symbolic' else None
+        # an errback may re-enter the protocol (the usual retry-on-failure handler): what it sees must already be a disconnected protocol,
+        # or the request it issues is filed on a dead connection and never fails
+        w.probe = lambda: E.get(p, '_connected')
         E.method(p, 'connectionLost', None)
+        w.probe = None
+        E.prove('lost:the-protocol-is-already-disconnected-when-the-pending-deferreds-are-failed', L.And(*[L.Not(L.truth(c)) for c in w.seen]) if w.seen else True)
         names = sorted(f[0] for f in w.fired)
         E.prove('lost:every-pending-deferred-fails-exactly-once', names == ['p%d' % k for k in range(n)] and all(f[1] == 'errback' for f in w.fired))
         for f in w.fired:
